@@ -47,6 +47,7 @@ impl<T: Copy> FileSink<T> {
             Mode::Append => std::fs::File::options()
                 .read(false)
                 .append(true)
+                .create(true)
                 .open(filename)?,
         });
         Ok(Self { f, src })
@@ -106,6 +107,7 @@ impl<T> NoCopyFileSink<T> {
             Mode::Append => std::fs::File::options()
                 .read(false)
                 .append(true)
+                .create(true)
                 .open(filename)?,
         });
         Ok(Self { f, src })
